@@ -145,6 +145,13 @@ def gen_freq(kind):
             case["depth"] = rng.choice([1, 2, 3, 5])
         elif kind == "hll":
             case["precision"] = rng.choice([4, 5, 6, 8, 10])
+            if rng.random() < 0.4:
+                # two very small sketches with a coarse register file: shared registers are likely
+                case["precision"] = rng.choice([4, 4, 5])
+                m = rng.choice([2, 3, 4, 6])
+                case["stream"] = [[i % len(uni), 1] for i in range(min(m, 2 * len(uni)))]
+                case["split"] = rng.randrange(1, len(case["stream"])) if len(case["stream"]) > 1 else 0
+                case["split2"] = len(case["stream"])
         elif kind == "topk":
             case["k"] = rng.choice([1, 2, 3, 5, 10])
         return case
@@ -154,6 +161,15 @@ def gen_freq(kind):
 
 # --------------------------------------------------------------------------
 # oracles
+
+
+def _plain_state(x):
+    """The object's own data attributes (ints, floats, strings, lists, dicts, tuples), representation-agnostic."""
+    out = {}
+    for k, v in vars(x).items():
+        if isinstance(v, (int, float, str, bytes, list, dict, tuple, set, frozenset, type(None))):
+            out[k] = v
+    return out
 
 
 def _mk(case):
@@ -364,14 +380,30 @@ def run_freq(case: dict) -> Result:
             res.count("queries_checked")
             if a.cardinality() != whole.cardinality():
                 res.add("merge-differs", comp, shape, f"cardinality merged {a.cardinality()} whole {whole.cardinality()}")
-            if a._registers != whole._registers:
+            if getattr(a, "_registers", None) != getattr(whole, "_registers", None):
                 res.add("merge-state-differs", comp, shape, "registers differ")
+            elif _plain_state(a) != _plain_state(whole):
+                # whatever representation the sketch uses internally: "exactly the sketch of the concatenated streams"
+                diff = [k for k in _plain_state(whole) if _plain_state(a).get(k) != _plain_state(whole)[k]]
+                res.add("merge-state-differs", comp, shape + "-object-state", f"attributes differ: {diff[:4]}")
+            # the merged sketch and the sketch of the concatenated stream must STAY equal when both keep growing
+            # (a merge that is only right in the small-cardinality range shows later)
+            a3, w3 = copy.deepcopy(a), copy.deepcopy(whole)
+            for j in range(400):
+                x = ("follow-up", j)
+                a3.add(x)
+                w3.add(x)
+                if j < 150 or j % 20 == 19:
+                    res.count("queries_checked")
+                    if a3.cardinality() != w3.cardinality():
+                        res.add("merge-differs", comp, "merged-then-both-grow", f"after {j + 1} follow-up adds: merged {a3.cardinality()} vs sketch of the concatenated stream {w3.cardinality()}")
+                        break
         if a.item_count != whole.item_count:
             res.add("merge-differs", comp, shape + "-item-count", f"{a.item_count} vs {whole.item_count}")
         # merge must not disturb its argument, neither at once nor when the receiver is updated later (aliasing)
         def same_state(x, y):
             return (
-                kind == "bloom" and x._bits == y._bits or kind == "cms" and x._counters == y._counters or kind == "hll" and x._registers == y._registers
+                kind == "bloom" and x._bits == y._bits or kind == "cms" and x._counters == y._counters or kind == "hll" and (getattr(x, "_registers", None) == getattr(y, "_registers", None) and x.cardinality() == y.cardinality())
             )
 
         if not same_state(b, b_before):
@@ -387,7 +419,7 @@ def run_freq(case: dict) -> Result:
         _feed(c1, uni, stream[split:])
         _feed(c2, uni, stream[:split])
         c1.merge(c2)
-        if kind == "bloom" and c1._bits != a._bits or kind == "cms" and c1._counters != a._counters or kind == "hll" and c1._registers != a._registers:
+        if kind == "bloom" and c1._bits != a._bits or kind == "cms" and c1._counters != a._counters or kind == "hll" and (getattr(c1, "_registers", None) != getattr(a, "_registers", None) or c1.cardinality() != a.cardinality()):
             res.add("merge-not-commutative", comp, shape, "")
         if 0 < split < len(stream):
             res.nontrivial = res.nontrivial or kind == "hll"
@@ -402,7 +434,7 @@ def run_freq(case: dict) -> Result:
             parts.append(sk)
 
         def state(x):
-            return x._bits if kind == "bloom" else x._counters if kind == "cms" else x._registers
+            return x._bits if kind == "bloom" else x._counters if kind == "cms" else (getattr(x, "_registers", None), x.cardinality())
 
         acc = _mk(case)
         acc.merge(parts[0])
@@ -664,7 +696,7 @@ def gen_merkle(rng: random.Random, tier: str) -> dict:
             k1, k2 = rng.sample(sorted(b), 2)
             b[k1], b[k2] = b[k2], b[k1]
         ops.append(op)
-    return {"kind": "merkle", "a": a, "b": b, "via_update": rng.choice([False, False, True, "from-empty"]), "ops": ops, "order_seed": rng.randrange(10**6)}
+    return {"kind": "merkle", "a": a, "b": b, "via_update": rng.choice([False, False, True, "from-empty"]), "ops": ops, "order_seed": rng.randrange(10**6), "caller_keeps_dict": rng.random() < 0.3}
 
 
 def run_merkle(case: dict) -> Result:
@@ -685,7 +717,16 @@ def run_merkle(case: dict) -> Result:
 
     a = {k: dec(v) for k, v in case["a"].items()}
     b = {k: dec(v) for k, v in case["b"].items()}
-    ta = MerkleTree.build(a)
+    a_live = dict(a)
+    ta = MerkleTree.build(a_live)
+    if case.get("caller_keeps_dict") and a:
+        # the caller goes on using its own dict; the tree is a snapshot and is maintained through update()/remove()
+        a_live["zz-foreign-%d" % len(a_live)] = "foreign"
+        k0 = sorted(a)[0]
+        a_live[k0] = ["changed-by-the-caller"]
+        del a_live[sorted(a)[-1]]
+        k1 = sorted(a)[len(a) // 2]
+        ta.update(k1, a[k1])  # same value: the tree must still describe map `a`
     if case["via_update"] == "from-empty":
         # maintained key by key from an empty tree, in an arbitrary order, some keys written twice
         tb = MerkleTree()
@@ -816,7 +857,74 @@ def run_alias(case: dict) -> Result:
     return res
 
 
+# ---- collector entities (components/sketching) driven by a simulation -----
+
+
+def gen_collectors(rng: random.Random, tier: str) -> dict:
+    n = rng.choice([1, 5, 30, 120])
+    nuni = rng.choice([1, 2, 4, 9])
+    return {
+        "kind": "collectors",
+        "k": rng.choice([1, 2, 3, 5]),
+        "events": [[rng.randrange(nuni) if rng.random() < 0.95 else None, rng.choice([0, 0, 1, 1, 1, 2, 5]), round(rng.uniform(0, 50), 3)] for _ in range(n)],
+        "weighted": rng.random() < 0.7,
+    }
+
+
+def run_collectors(case: dict) -> Result:
+    from happysimulator.components.sketching import QuantileEstimator, SketchCollector, TopKCollector
+    from happysimulator.core.event import Event
+    from happysimulator.core.simulation import Simulation
+    from happysimulator.core.temporal import Instant
+    from happysimulator.sketching import CountMinSketch
+
+    res = Result()
+    weighted = case["weighted"]
+    val = lambda e: e.context["metadata"]["v"]  # noqa: E731
+    cnt = (lambda e: e.context["metadata"]["c"]) if weighted else None
+    topk = TopKCollector("topk", k=case["k"], value_extractor=val, count_extractor=cnt)
+    cms = SketchCollector("cms", sketch=CountMinSketch(width=8, depth=2, seed=1), value_extractor=val, weight_extractor=cnt)
+    qe = QuantileEstimator("qe", value_extractor=lambda e: e.context["metadata"]["x"])
+    sim = Simulation(entities=[topk, cms, qe], end_time=Instant.from_seconds(10.0 + len(case["events"])))
+    truth, n_total, xs = Counter(), 0, []
+    for i, (v, c, x) in enumerate(case["events"]):
+        md = {"v": None if v is None else f"item-{v}", "c": c, "x": x}
+        for target in (topk, cms, qe):
+            sim.schedule(Event(time=Instant.from_seconds(0.01 * i), event_type="Obs", target=target, context={"metadata": dict(md)}))
+        if v is not None:
+            w = c if weighted else 1
+            truth[md["v"]] += w
+            n_total += w
+        xs.append(x)
+    sim.run()
+    res.count("collector_events", 3 * len(case["events"]))
+    for item, t in truth.items():
+        res.count("queries_checked")
+        if item in topk:
+            d = topk.estimate(item) - t
+            err = next((f.error for f in topk.top() if f.item == item), None)
+            if d < 0 or (err is not None and d > err):
+                res.add("error-bound", "TopKCollector", "event-driven-weighted" if weighted else "event-driven", f"item {item!r}: estimate {topk.estimate(item)}, true {t}, reported error {err}")
+        elif t * case["k"] > n_total:
+            res.add("heavy-hitter-untracked", "TopKCollector", "event-driven-weighted" if weighted else "event-driven", f"item {item!r} count {t} > N/k = {n_total}/{case['k']}")
+        if cms.sketch.estimate(item) < t:
+            res.add("underestimate", "SketchCollector", "event-driven-weighted" if weighted else "event-driven", f"estimate({item!r})={cms.sketch.estimate(item)} < {t}")
+    if xs:
+        prev = None
+        for i in range(21):
+            q = i / 20
+            v = qe.quantile(q)
+            res.count("queries_checked")
+            if v < min(xs) - 1e-9 or v > max(xs) + 1e-9 or (prev is not None and v < prev - 1e-9):
+                res.add("quantile-not-monotone" if prev is not None and v < prev - 1e-9 else "quantile-outside-min-max", "QuantileEstimator", "event-driven", f"quantile({q})={v}, previous {prev}, min {min(xs)} max {max(xs)}")
+                break
+            prev = v
+    res.nontrivial = len(truth) > case["k"]
+    return res
+
+
 FAMILIES = {
+    "collectors": Family("collectors", gen_collectors, run_collectors),
     "alias": Family("alias", gen_alias, run_alias),
     "bloom": Family("bloom", gen_freq("bloom"), run_freq),
     "cms": Family("cms", gen_freq("cms"), run_freq),
@@ -828,8 +936,9 @@ FAMILIES = {
 }
 
 BUDGET = {
-    "quick": {"alias": 60, "bloom": 1000, "cms": 1000, "hll": 500, "topk": 1200, "tdigest": 1000, "reservoir": 600, "merkle": 1500},
+    "quick": {"collectors": 400, "alias": 60, "bloom": 1000, "cms": 1000, "hll": 500, "topk": 1200, "tdigest": 1000, "reservoir": 600, "merkle": 1500},
     "thorough": {
+        "collectors": 20000,
         "alias": 1500,
         "bloom": 40000,
         "cms": 40000,
